@@ -36,6 +36,7 @@ CHECKS = {
             {"pkg": "lib", "entries": ["VerifC17Flat"], "params": {"N": 2, "M": 3}},
             {"pkg": "lib", "entries": ["VerifC17Docs"], "params": {"KN": 1}},
             {"pkg": "lib", "entries": ["VerifC17Deep"], "params": {"DEPTH": 7, "N": 3}},
+            {"pkg": "lib", "entries": ["VerifC17Deep"], "params": {"DEPTH": 3, "N": 3, "CHAINKINDS": 2}},
         ],
         "thorough": [
             {"pkg": "lib", "entries": ["VerifC17Flat"], "params": {"N": 3, "M": 3}},
@@ -237,15 +238,17 @@ CHECKS = {
             {"pkg": "v2", "entries": ["VerifC05Nest"], "params": {"N": 1, "INNER": 2}},
             {"pkg": "v2", "entries": ["VerifC05Nest"], "params": {"N": 2, "INNER": 1}},
             {"pkg": "v2", "entries": ["VerifC05Docs"], "params": {"OPTS": 19}},
+            {"pkg": "v2", "entries": ["VerifC05Nulls"], "params": {"N": 2}},
             {"pkg": "v2", "entries": ["VerifC05Precision"], "params": {"N": 1}, "extra": ["-solver", "cvc5"]},
         ],
         "thorough": [
             {"pkg": "v2", "entries": ["VerifC05Flat"], "params": {"N": 3}},
             {"pkg": "v2", "entries": ["VerifC05Nest"], "params": {"N": 2, "INNER": 2}},
             {"pkg": "v2", "entries": ["VerifC05Docs"], "params": {"OPTS": 0x77}},
+            {"pkg": "v2", "entries": ["VerifC05Nulls"], "params": {"N": 3}},
             {"pkg": "v2", "entries": ["VerifC05Precision"], "params": {"N": 1}, "extra": ["-solver", "cvc5"]},
         ],
-        "covers": ["c05.flat.none", "c05.flat.set", "c05.flat.multiset", "c05.flat.merge", "c05.nest.none", "c05.nest.set+merge", "c05.obj.none", "c05.void.none", "c05.keyed.setkeys", "c05.precision"],
+        "covers": ["c05.flat.none", "c05.flat.set", "c05.flat.multiset", "c05.flat.merge", "c05.nest.none", "c05.nest.set+merge", "c05.obj.none", "c05.void.none", "c05.keyed.setkeys", "c05.precision", "c05.nulls.merge", "c05.nulls.none"],
         "outside": "arrays longer than N; the CLI exit status is decided in C14; FNV collisions",
     },
     "C01": {
@@ -255,6 +258,7 @@ CHECKS = {
             {"pkg": "v2", "entries": ["VerifC01Keyed"], "params": {"N": 2, "M": 1}},
             {"pkg": "v2", "entries": ["VerifC01Nest"], "params": {"N": 2, "OPTS": 0x17}},
             {"pkg": "v2", "entries": ["VerifC01Deep"], "params": {"DEPTH": 7}},
+            {"pkg": "v2", "entries": ["VerifC01Deep"], "params": {"DEPTH": 3, "CHAINKINDS": 2}},
         ],
         "thorough": [
             {"pkg": "v2", "entries": ["VerifC01Flat"], "params": {"N": 3, "CLONE": 1}},
